@@ -127,3 +127,32 @@ class MemWriter:
     @property
     def data(self):
         return b"".join(c for _, c in self.chunks)
+
+
+_aiosqlite_patched = False
+
+
+def patch_aiosqlite():
+    """make aiosqlite's worker-thread round trips visible to VLoop (no clock jump / stall while one is in flight)"""
+    global _aiosqlite_patched
+    if _aiosqlite_patched:
+        return
+    import aiosqlite.core as core
+
+    def bracket(orig):
+        async def wrapped(self, *a, **k):
+            loop = asyncio.get_event_loop()
+            if isinstance(loop, VLoop):
+                loop.ext_begin()
+                try:
+                    return await orig(self, *a, **k)
+                finally:
+                    loop.ext_end()
+            return await orig(self, *a, **k)
+
+        return wrapped
+
+    core.Connection._execute = bracket(core.Connection._execute)
+    core.Connection._connect = bracket(core.Connection._connect)
+    core.Connection.close = bracket(core.Connection.close)
+    _aiosqlite_patched = True
